@@ -321,6 +321,9 @@ func (t *Header) Decode(d *Decoder) error {
 	}
 
 	epochMarkPointerFlag, err := d.ReadPointerFlag()
+	if err != nil {
+		return err
+	}
 	epochMarkPointerIsNil := epochMarkPointerFlag == 0
 	if epochMarkPointerIsNil {
 		cLog(Yellow, "EpochMark is nil")
@@ -336,6 +339,9 @@ func (t *Header) Decode(d *Decoder) error {
 	}
 
 	ticketsMarkPointerFlag, err := d.ReadPointerFlag()
+	if err != nil {
+		return err
+	}
 	ticketsMarkPointerIsNil := ticketsMarkPointerFlag == 0
 	if ticketsMarkPointerIsNil {
 		cLog(Yellow, "TicketsMark is nil")
@@ -1156,6 +1162,9 @@ func (f *Fault) Decode(d *Decoder) error {
 	}
 	cLog(Yellow, "Vote: %v", vote)
 
+	if vote > 1 {
+		return fmt.Errorf("invalid boolean %d", vote)
+	}
 	f.Vote = vote == 1
 
 	if err = f.Key.Decode(d); err != nil {
@@ -1238,6 +1247,9 @@ func (j *Judgement) Decode(d *Decoder) error {
 	}
 	cLog(Yellow, "Vote: %v", vote)
 
+	if vote > 1 {
+		return fmt.Errorf("invalid boolean %d", vote)
+	}
 	j.Vote = vote == 1
 
 	if err = j.Index.Decode(d); err != nil {
@@ -2004,6 +2016,9 @@ func (t *TicketsOrKeys) Decode(d *Decoder) error {
 	// Otherwise, it means Tickets is not nil
 
 	firstByte, err := d.ReadPointerFlag()
+	if err != nil {
+		return err
+	}
 	isTickets := firstByte == 0
 	isKeys := firstByte == 1
 
@@ -3234,6 +3249,9 @@ func (b *BoundaryNode) Decode(d *Decoder) error {
 	isLeafByte, err := d.buf.ReadByte()
 	if err != nil {
 		return err
+	}
+	if isLeafByte > 1 {
+		return fmt.Errorf("invalid boolean %d", isLeafByte)
 	}
 	b.IsLeaf = (isLeafByte != 0)
 	return nil
